@@ -272,6 +272,20 @@ theorem C05_interleaved_tuple_only_for_interleaved_request (cfg : Cfg) (prev : P
   subst ha
   simpa [tupleOf] using hil
 
+/-- non-vacuity: an interleaved request (state 1 s old) answered with an interleaved response
+    (origin = the request's receive field, transmit stamp just after `prev.sRx`) is accepted and
+    evaluated against the stored stamps. -/
+example :
+    let prev : Prev := ⟨"S", true, ofTime 10000000000, ofTime 10000050000, ofTime 10000030000⟩
+    let cfg : Cfg := ⟨.ip, true, false, true⟩
+    let req := mkRequest cfg prev "S" 11000000000
+    req.interleaved = true ∧
+    (match ntpStage cfg prev req 11000000050 11000000900
+      ⟨48, ⟨36, 1, req.rx, ofTime 11000000100, ofTime 10000040000⟩, true, true, true⟩ with
+     | .accept a => a.il
+     | _ => false) = true := by
+  decide
+
 /-! ### Packet authenticator (client clause of C13; seeded change C13-5: extension looked up by
 the SCION next-header field) -/
 
